@@ -36,7 +36,13 @@ pub fn profile(attrs: bool) -> Profile {
     p.funcs = (0, 0);
     p.stmts = (0, 1);
     p.entries = [(0, 1), (0, 1), (0, 1)];
-    p.io_structs = false;
+    // vertex input structs that are also storage buffers (the documented option set has
+    // derive_bytemuck_vertex on)
+    p.io_structs = true;
+    p.entries = [(0, 2), (0, 1), (0, 1)];
+    p.vertex_struct_params = (0, 2);
+    p.vin_as_storage = 5;
+    p.f64_vertex = false;
     p.push = 0;
     p.private = 0;
     p.workgroup = 0;
@@ -208,7 +214,12 @@ impl ExecProp for C10 {
         let sh = gen_shader(&mut ch, &profile(self.attrs));
         let rt_lens: Vec<u32> = (0..4).map(|_| h.below(4)).collect();
         let wgsl = render(&sh);
-        let opts = Opts { encase_host: true, repr: Repr::Glam, ..Opts::default() };
+        // the documented recommendation: encase + glam, with and without bytemuck for vertex inputs
+        let mut opts = Opts { encase_host: true, repr: Repr::Glam, bytemuck_vertex: h.flip(), ..Opts::default() };
+        // Pod's padding rejection on a vertex-only struct is a permitted compile failure (C01/C05), not this property's subject
+        if expect::predict_module(&sh, &opts).iter().any(|(_, c)| *c != expect::CompileOutcome::Compiles) {
+            opts.bytemuck_vertex = false;
+        }
         Some(Built { sh, wgsl, include_path: None, opts, extra: json!({"rt_lens": rt_lens}), files: vec![] })
     }
     fn probe_src(&self, b: &Built) -> String {
@@ -257,7 +268,7 @@ pub fn eval_replay(sut: &dyn Sut, v: &Value) -> Result<(), String> {
 pub fn run(sut: &dyn Sut, tier: Tier) -> ! {
     preflight::quiet_panics();
     let mut run = Run::new("C10", tier);
-    run.rule = "generated host-shareable structs restricted to what encase and glam represent (f32/i32/u32 scalars and vec2-4, square f32 matrices, atomics, fixed arrays and nested structs of those, trailing runtime arrays with 0-3 elements) bound as storage / uniform buffers, with derive_encase_host_shareable and the glam representation. The probe builds a value whose every scalar component has a unique bit pattern and writes it with encase::StorageBuffer::write (and UniformBuffer::write for structs used in var<uniform>); the image length must be the WGSL size and every component's 4 bytes must sit at the WGSL component offset computed by the harness's layout model; padding bytes are not compared. Members with explicit @size/@align are known finding K4 (excluded from the search, reported from the canary). Non-trivial = a vec3 followed by a scalar, an array of vec3, a mat3x3, a nested struct, or a runtime array with >= 1 element; distinct by (wgsl, options).".to_string();
+    run.rule = "generated host-shareable structs restricted to what encase and glam represent (f32/i32/u32 scalars and vec2-4, square f32 matrices, atomics, fixed arrays and nested structs of those, trailing runtime arrays with 0-3 elements) bound as storage / uniform buffers, with derive_encase_host_shareable and the glam representation, derive_bytemuck_vertex on and off; vertex input structs are also bound as storage buffers. The probe builds a value whose every scalar component has a unique bit pattern and writes it with encase::StorageBuffer::write (and UniformBuffer::write for structs used in var<uniform>); the image length must be the WGSL size and every component's 4 bytes must sit at the WGSL component offset computed by the harness's layout model; padding bytes are not compared. Members with explicit @size/@align are known finding K4 (excluded from the search, reported from the canary). Non-trivial = a vec3 followed by a scalar, an array of vec3, a mat3x3, a nested struct, or a runtime array with >= 1 element; distinct by (wgsl, options).".to_string();
     run.assumptions = vec!["f64 members are outside: encase 0.10 has no f64 support".into(), "for a runtime array with 0 elements both the 0-element and the 1-element (minimum binding) size are accepted".into()];
     let mut stats = Stats::new();
     run.canaries(&mut |v| eval_replay(sut, v));
